@@ -84,6 +84,14 @@ CLAIMED.update({
     ref="DESIGN.md §4 C09"),
 })
 
+CLAIMED.update({
+  "C10": dict(
+    text="Structural clauses of collection paging, decided statically on harvestWithEmptyCount and its two goroutine closures: the single recursion is shown to be dominated by the false edge of emptyCount > 3 on the very counter cell that is passed on, the counter to be incremented exactly on the page-is-empty edge, every early return to deliver one failure item with a nil continuation; all paths to the recursive spawn are enumerated and on each that does not increment the counter the last assignment is shown to be a constant (consecutive = reset); slot k is shown to receive construct(c.elements[k+startingPoint], c.id) by comparing linear index forms, the result to be this page's slice followed by the recursion's slice, the next page (built from c.next with checked error) to be asked for amount-amountFromThisPage from offset 0; the page names itself as continuation only under length > amount+startingPoint with resume offset amount+startingPoint, otherwise forwards the deeper continuation or nil. Exactly-once over all layouts is NOT claimed.",
+    note="Not decided: that the pieces compose to exactly-once/in-order for every layout and chunking, prefix-of-truth on cyclic chains, unsigned arithmetic of amountFromThisPage. Fan-out race freedom: C08.R5.",
+    technique="static dominance and path enumeration (counter discipline), linear-form index agreement, continuation-shape matching over SSA",
+    ref="DESIGN.md §4 C10"),
+})
+
 NOT_APPLICABLE = {
   "C13": "content preservation / line-length bounds of Wrap, DumbWrap, Pad, Indent, Snip are relations between input and output string values for all strings and widths; no sound static argument over the code's shape decides them (DESIGN.md §5)",
   "C14": "per-character attribute sets after arbitrary nesting and layout are string values; the structural facts available (single SGR emitter) are not necessary conditions of this property (DESIGN.md §5)",
